@@ -426,6 +426,7 @@ func c03Range(w *World, r *Result) {
 	var iterables []ssa.Value
 	var lenArg, cmpLeftVar ssa.Value
 	cmpOp := ""
+	cmpRightIsLen := false
 	var incCall *ssa.Call
 	pos := w.Pos(fn.Pos())
 	for _, s := range pf.Slots {
@@ -441,6 +442,12 @@ func c03Range(w *World, r *Result) {
 			iterables = append(iterables, s.Val)
 		case "Len.expression":
 			lenArg = s.Val
+		case "Comparison.right":
+			for _, o := range pf.origins(s.Val, map[ssa.Value]bool{}) {
+				if o.node == "Len" {
+					cmpRightIsLen = true
+				}
+			}
 		case "Comparison.left":
 			cmpLeftVar = varOf(s.Val)
 			if op, ok := pf.constOperatorOfLiteral(s); ok {
@@ -487,7 +494,9 @@ func c03Range(w *World, r *Result) {
 			okIter = false
 		}
 	}
-	if cmpOp == "<" && okIter {
+	if cmpOp == "<" && okIter && !cmpRightIsLen {
+		r.Bad(rule, "range:condition", pos, "the bound of the range condition is not the length of the iterable itself but something that stands for it (a variable filled earlier): the parser has no way of making such a variable distinct per loop, so nested range loops in one scope share it and the outer loop runs with the inner loop's bound")
+	} else if cmpOp == "<" && okIter {
 		r.Ok(rule, "range:condition", pos, "condition is index < len(iterable) over the iterable that is indexed")
 	} else {
 		r.Bad(rule, "range:condition", pos, fmt.Sprintf("range condition is not index < len(same iterable) (operator %q, same iterable %v)", cmpOp, okIter))
